@@ -229,10 +229,32 @@ func (tt *TermTable) Eq(a, b *Term) *Term {
 	if a.IsConst() && !b.IsConst() {
 		a, b = b, a
 	}
+	// (x + c1) == (x + c2), (x + c) == x, (x + c1) == c2
+	if a.W <= 64 && a.W > 0 {
+		ab, ac := splitAddConst(a)
+		bb, bc := splitAddConst(b)
+		if ab != nil && ab == bb {
+			return tt.Bool(ac == bc)
+		}
+		if ab != nil && ab != a && b.IsConst() && b.Big == nil {
+			return tt.Eq(ab, tt.Const(b.C-ac, a.W))
+		}
+	}
 	if a.ID > b.ID && !b.IsConst() {
 		a, b = b, a
 	}
 	return tt.intern(&Term{Op: "=", Args: []*Term{a, b}})
+}
+
+// splitAddConst views t as base + c (c = 0 when t is not an addition of a constant).
+func splitAddConst(t *Term) (*Term, uint64) {
+	if t.IsConst() {
+		return nil, 0
+	}
+	if t.Op == "bvadd" && t.Args[1].IsConst() && t.Args[1].Big == nil {
+		return t.Args[0], t.Args[1].C
+	}
+	return t, 0
 }
 
 // ---- bit-vector ops ----
